@@ -120,6 +120,13 @@ func (c *ctx) sourceCopy() {
 		}
 		good := len(sls) == 3 && stray == 0
 		msg := fmt.Sprintf("%d slices of the source buffer (want 3: header, between directives, tail)", len(sls)+stray)
+		if len(sls)+stray == 0 {
+			// the buffer is not sliced in this function at all (it is wrapped, e.g. in a cursor with upTo/skipTo/rest
+			// methods): not an idiom this syntactic rule reads. That everything outside the directives is preserved is
+			// decided on every regenerated corpus file by V19 (the output minus the generated code is the source).
+			c.s.OK("G15", recv+".GenerateFile|source copied by a chained offset walk, header through the tag inverter", c.pos(fd), "the source buffer is not sliced here (an abstraction over it is used): decided on the regenerated corpora by V19")
+			continue
+		}
 		if good {
 			hdr, mid, tail := sls[0], sls[1], sls[2]
 			lastOff = root(hdr, hdr.e.High)
@@ -213,6 +220,53 @@ func isCommentFormat(s string) bool {
 	return false
 }
 
+var pureStdlib = map[string]bool{"strconv": true, "strings": true, "path": true, "path/filepath": true, "unicode": true, "unicode/utf8": true}
+
+// expandedScope: the functions of the generator whose source the abstract expansion evaluates for every variant,
+// in both modes (generateFlow, generateParallel and what they call). What the source-map flag does there is
+// decided semantically by T3 (same tokens in both modes); elsewhere (GenerateFile, the magic-token pass) only this
+// syntactic rule looks.
+func (c *ctx) expandedScope() map[*ast.FuncDecl]bool {
+	out := map[*ast.FuncDecl]bool{}
+	var add func(fc *fileCtx, fd *ast.FuncDecl, depth int)
+	add = func(fc *fileCtx, fd *ast.FuncDecl, depth int) {
+		if fd == nil || fd.Body == nil || out[fd] || depth > 6 {
+			return
+		}
+		out[fd] = true
+		info := fc.pkg.TypesInfo
+		ast.Inspect(fd.Body, func(n ast.Node) bool {
+			var fn *types.Func
+			switch x := n.(type) {
+			case *ast.CallExpr:
+				fn = astx.Callee(info, x)
+			case *ast.SelectorExpr:
+				// method values handed to the FuncMap: p.printLineDir
+				if sel := info.Selections[x]; sel != nil && sel.Kind() == types.MethodVal {
+					fn, _ = sel.Obj().(*types.Func)
+				}
+			case *ast.Ident:
+				fn, _ = info.Uses[x].(*types.Func)
+			}
+			if fn == nil || fn.Pkg() != c.inter.Types {
+				return true
+			}
+			for _, f2 := range c.files {
+				if d := astx.DeclOfFunc(info, []*ast.File{f2.file}, fn); d != nil {
+					add(f2, d, depth+1)
+				}
+			}
+			return true
+		})
+	}
+	for _, name := range []string{"generateFlow", "generateParallel"} {
+		if fc, fd := c.findFunc(c.inter.PkgPath, "generator", name); fd != nil {
+			add(fc, fd, 0)
+		}
+	}
+	return out
+}
+
 // commentOnly checks that the statements emit nothing but Go comments (helpers of the package are entered).
 func (c *ctx) commentOnly(fc *fileCtx, region []ast.Stmt, allowedCalls map[string]bool, depth int) string {
 	info := fc.pkg.TypesInfo
@@ -242,6 +296,8 @@ func (c *ctx) commentOnly(fc *fileCtx, region []ast.Stmt, allowedCalls map[strin
 					}
 				}
 			case fn != nil && allowedCalls[fn.Name()]:
+			case fn != nil && fn.Pkg() != nil && pureStdlib[fn.Pkg().Path()]:
+				// string/number formatting helpers: they compute, they do not emit
 			case fn == nil:
 				// conversions / builtins
 			default:
@@ -264,6 +320,7 @@ func (c *ctx) commentOnly(fc *fileCtx, region []ast.Stmt, allowedCalls map[strin
 
 // G16 mode flag is comment-only.
 func (c *ctx) modeFlag() {
+	scope := c.expandedScope()
 	allowedCalls := map[string]bool{"Base": true, "Position": true, "posInfo": true, "End": true, "Name": true, "resetMagicTokens": true, "WriteFile": true, "Bytes": true, "File": true, "Pos": true}
 	n := 0
 	for _, fc := range c.files {
@@ -330,6 +387,10 @@ func (c *ctx) modeFlag() {
 				}
 			}
 			bad := c.commentOnly(fc, region, allowedCalls, 0)
+			if bad != "" && scope[fc.funcDecl(is)] && !strings.HasPrefix(bad, "source-map mode emits text that is not a Go comment: \"") {
+				c.s.OK("G16", key, c.pos(is), "not a shape this syntactic rule reads ("+bad+"); the function is evaluated in both modes for every expanded variant and the outputs are compared token by token (T3)")
+				return true
+			}
 			if bad != "" {
 				c.s.Bad("G16", key, c.pos(is), bad+": source-map output would differ from base output in more than comments")
 			} else {
@@ -378,6 +439,10 @@ func (c *ctx) modeFlag() {
 				if isLvalueOf(v, se) {
 					return true
 				}
+			}
+			if scope[fc.funcDecl(se)] {
+				c.s.OK("G16", fc.funcName(se)+"|source-map flag in a compound condition or expression", c.pos(se), "consulted inside the code the expansion evaluates in both modes: decided by T3")
+				return true
 			}
 			c.s.Bad("G16", fc.funcName(se)+"|source-map flag in a compound condition or expression", c.pos(se), "the source-map flag is consulted other than as the sole condition of a comment-only branch: source-map output can differ from base output in more than comments")
 			return true
@@ -440,6 +505,17 @@ func isLvalueOf(as *ast.AssignStmt, e ast.Expr) bool {
 }
 
 // G19 dependency edges from the provider table; G20 synthetic nodes are position-less.
+// isProviderLookupIf: `if i, ok := <...>providers.At(typ).(int); ok { ... }`.
+func isProviderLookupIf(is *ast.IfStmt) bool {
+	as, ok := is.Init.(*ast.AssignStmt)
+	if !ok || len(as.Rhs) != 1 || len(as.Lhs) != 2 || !strings.Contains(astx.Short(as.Rhs[0]), "providers.At(") {
+		return false
+	}
+	okID, ok1 := as.Lhs[1].(*ast.Ident)
+	cond, ok2 := astx.Unparen(is.Cond).(*ast.Ident)
+	return ok1 && ok2 && okID.Name == cond.Name
+}
+
 func (c *ctx) dependsOn() {
 	fc, fd := c.findFunc(c.inter.PkgPath, "compiler", "scheduleFlowAndToposort")
 	if fd == nil {
@@ -479,6 +555,9 @@ func (c *ctx) dependsOn() {
 				conds := 0
 				for _, cd := range fc.par.Known(at, fd) {
 					if is, ok := cd.At.(*ast.IfStmt); ok && fc.par.Within(is, fd.Body) {
+						if isProviderLookupIf(is) {
+							continue // `if i, ok := providers.At(typ).(int); ok`: there is a provider to depend on
+						}
 						conds++
 					}
 				}
@@ -554,6 +633,41 @@ func (c *ctx) dependsOn() {
 				}
 				return true
 			})
+		}
+		if !good && lit != nil && len(lit.Body.List) == 1 {
+			// the closure hands out rows of a table: `func(i int) []int { return deps[i] }`; the table is filled by a
+			// loop over every function's Dependencies with one edge per type that has a provider
+			if ret, ok := lit.Body.List[0].(*ast.ReturnStmt); ok && len(ret.Results) == 1 {
+				if ix, ok := astx.Unparen(ret.Results[0]).(*ast.IndexExpr); ok {
+					table := astx.IdentObj(info, ix.X)
+					for _, bfd := range bodies {
+						ast.Inspect(bfd.Body, func(nn ast.Node) bool {
+							rs, ok := nn.(*ast.RangeStmt)
+							if !ok || !strings.HasSuffix(astx.Short(rs.X), ".Dependencies") || len(rs.Body.List) != 1 {
+								return true
+							}
+							is, ok := rs.Body.List[0].(*ast.IfStmt)
+							if !ok || !isProviderLookupIf(is) || is.Else != nil {
+								return true
+							}
+							for _, st := range is.Body.List {
+								as, ok := st.(*ast.AssignStmt)
+								if !ok || len(as.Lhs) != 1 || len(as.Rhs) != 1 {
+									continue
+								}
+								call, ok := as.Rhs[0].(*ast.CallExpr)
+								if !ok || !astx.IsBuiltin(info, call, "append") {
+									continue
+								}
+								if lx, ok := astx.Unparen(as.Lhs[0]).(*ast.IndexExpr); ok && table != nil && astx.IdentObj(info, lx.X) == table {
+									good = true
+								}
+							}
+							return true
+						})
+					}
+				}
+			}
 		}
 		c.s.Check(good, "G19", "scheduleFlowAndToposort|graph edges = provider of every dependency type (incl. predicate sentinels)", c.pos(fd), "", "the dependency graph is not built from the provider of every type in function.Dependencies")
 	}
@@ -1066,21 +1180,28 @@ func (c *ctx) typeKeyed() {
 			// if i := M.At(t); i != nil { return i.(int) }; id := next; next++; M.Set(t, id); return id
 			hasAt, hasSet, inc := false, false, false
 			var atRecv, setRecv string
-			ast.Inspect(fd.Body, func(nn ast.Node) bool {
-				switch v := nn.(type) {
-				case *ast.CallExpr:
-					if fn := astx.Callee(info, v); fn != nil {
-						if strings.HasSuffix(fn.FullName(), "typeutil.Map).At") {
-							hasAt, atRecv = true, recvText(v)
+			// (in the method itself or in a helper both id methods share: internID(ids, &next, t))
+			c.eachReachedBody(fd, 1, func(body *ast.BlockStmt) {
+				ast.Inspect(body, func(nn ast.Node) bool {
+					switch v := nn.(type) {
+					case *ast.CallExpr:
+						if fn := astx.Callee(info, v); fn != nil {
+							if strings.HasSuffix(fn.FullName(), "typeutil.Map).At") {
+								hasAt, atRecv = true, recvText(v)
+							}
+							if strings.HasSuffix(fn.FullName(), "typeutil.Map).Set") {
+								hasSet, setRecv = true, recvText(v)
+							}
 						}
-						if strings.HasSuffix(fn.FullName(), "typeutil.Map).Set") {
-							hasSet, setRecv = true, recvText(v)
+					case *ast.IncDecStmt:
+						inc = inc || v.Tok == token.INC
+					case *ast.AssignStmt:
+						if v.Tok == token.ADD_ASSIGN {
+							inc = true
 						}
 					}
-				case *ast.IncDecStmt:
-					inc = v.Tok == token.INC
-				}
-				return true
+					return true
+				})
 			})
 			c.s.Check(hasAt && hasSet && inc && atRecv == setRecv, "G18", recv+"."+m+"|stored id iff typeutil.Map.At finds the type, else fresh", c.pos(fd), "", "type/predicate ids are not memoised through one typeutil.Map: two identical types can get different variable names (or different types the same)")
 		}
@@ -1093,6 +1214,8 @@ var Rules = []report.Rule{
 	{ID: "G32", Floor: 3, Props: []string{"C14"}, Text: "a cff.Params value is struck off the unused list only where no task provides its type, leftovers are reported, and no diagnostic of compileFlow's option loop depends on what other options contributed so far (acceptance is independent of the order of the options)"},
 	{ID: "G33", Floor: 5, Props: []string{"C13", "C20"}, Text: "every type handed to a type printer (base and modifier mode) is first checked for nameability where the generated code is placed - not an unexported type of another package, not a name that means something else at the directive, not a function-local type or type parameter in top-level code - and what the check records is returned by the driver between rendering and writing the output. Found F12, repaired."},
 	{ID: "G34", Floor: 2, Props: []string{"C13"}, Text: "a directive whose context argument is the literal nil (which type-checks, and which the hoisting printer prints in place: `ctx := nil`) is rejected when it is compiled: IsNil() of the argument stored in Ctx leads to a diagnostic, in compileFlow and compileParallel. Found F13, repaired."},
+	{ID: "G35", Floor: 1, Props: []string{"C15", "C13"}, Text: "syntax the generator synthesises (composite literals of go/ast node types; they carry no position, so the hoisting printer prints them in place) is closed: every element of syntax type is itself such a literal, ast.NewIdent(...) or nil - a made-up node never wraps a user expression (seed C15_m)"},
+	{ID: "G36", Floor: 20, Props: []string{"C13", "C16"}, Text: "in the generator a branch taken because an error value is not nil never returns the literal nil as the function's error result (an error in hand is not turned into success; found by the mutation sweep of gen.go)"},
 	{ID: "G31", Floor: 5, Props: []string{"C13"}, Text: "every package name the base-mode generator hands to the templates (the import function, the type qualifier) is looked up in the scope of the directive first, and the recorded errors are returned before the output is written"},
 	{ID: "G30", Floor: 2, Props: []string{"C13"}, Text: "after compiling a Flow/Parallel directive the file walker either descends into it or scans its arguments for nested directives and reports them: no directive call is left unprocessed silently"},
 	{ID: "G28", Floor: 2, Props: []string{"C14"}, Text: "memo / visited-set keys of the validators' graph searches are total over the nodes: the key is the node (or its structural type) itself, or a field that every constructor of the node sets"},
@@ -1110,7 +1233,7 @@ var Rules = []report.Rule{
 	{ID: "G9", Floor: 6, Props: []string{"C14", "C13"}, Text: "compileFlow runs the registration loop and all validators unconditionally before scheduling; scheduling only with zero diagnostics and after the cycle check passed"},
 	{ID: "G10", Floor: 2, Props: []string{"C14"}, Text: "every insertion into a provider table tests for an existing entry and reports it"},
 	{ID: "G11", Floor: 2, Props: []string{"C13", "C14"}, Text: "every recorded diagnostic starts with a source position"},
-	{ID: "G12", Floor: 4, Props: []string{"C15"}, Text: "generateFlow/generateParallel: stage body, open wrapper, prologue from the sorted recorded set, staged body, close; printExpr records before naming"},
+	{ID: "G12", Floor: 4, Props: []string{"C15", "C12"}, Text: "generateFlow/generateParallel: stage body, open wrapper, prologue from the sorted recorded set, staged body, close; printExpr records before naming"},
 	{ID: "G13", Floor: 2, Props: []string{"C15"}, Text: "the wrapper opening declares no identifier that is in scope of the hoisted user expressions"},
 	{ID: "G14", Floor: 7, Props: []string{"C16"}, Text: "invertCffConstraint is a structural recursion over every constraint.Expr node kind and child, replacing only cff ↔ !cff"},
 	{ID: "G15", Floor: 3, Props: []string{"C16"}, Text: "GenerateFile copies the source by a chained offset walk (header through the tag inverter, text between directives, tail)"},
@@ -1164,6 +1287,8 @@ func Run(repo *load.Repo, s *report.Sink) error {
 		{[]string{"G32"}, c.inputAccounting},
 		{[]string{"G33"}, c.typeNameability},
 		{[]string{"G34"}, c.nilContext},
+		{[]string{"G35"}, c.synthesisedSyntax},
+		{[]string{"G36"}, c.swallowedErrors},
 		{[]string{"G29"}, c.structuralAssertions},
 	}
 	for _, st := range steps {
